@@ -87,6 +87,7 @@ PhAt(s, p, indexed, plain) ==
             ELSE IF stem \in plain /\ dg = "" THEN [ok |-> TRUE, name |-> stem, idx |-> -1, end |-> q]
             ELSE NoPh
 
+SeqSetOf(q) == {q[j] : j \in 1..Len(q)}
 Lit(text) == [k |-> "lit", s |-> text, n |-> -1]
 Ph(name, idx) == [k |-> "ph", s |-> name, n |-> idx]
 
